@@ -4,6 +4,12 @@
 //! (2) every sequence of at most 5 NameBuilder operations over sizes that reach the label (63) and name (254/255)
 //!     limits: whatever the builder accepts, `finish()` and `into_name()` give valid names within the limits, and
 //!     a refused operation leaves the builder unchanged.
+//! (3) every valid relative / absolute name among those strings (plus names with labels that contain the octets of another
+//!     name's wire form) through the slicing operations: truncate / split / range / slice_from / range_from at *every*
+//!     index panic exactly at positions that are not label starts and otherwise give valid names holding exactly
+//!     the octets before / behind the position; split_first / parent; strip_suffix with every other such name as base
+//!     succeeds exactly when the base is a label-wise suffix (up to ASCII case) and leaves a valid name (or, refused,
+//!     the name as it was); into_absolute / into_relative; chain of two relative names.
 //! The open known finding D5 (append_slice / append_label without an open label accepting len + n == 254) is
 //! skipped: sequences containing exactly that step are not judged.
 use domain::base::name::{Name, NameBuilder, RelativeName};
@@ -94,6 +100,147 @@ fn run(seq: &[Op]) -> Result<(), String> {
     Ok(())
 }
 
+fn labels(s: &[u8]) -> Vec<Vec<u8>> {
+    let mut v = vec![];
+    let mut i = 0;
+    while i < s.len() {
+        let l = s[i] as usize;
+        v.push(s[i + 1..i + 1 + l].to_ascii_lowercase());
+        i += 1 + l;
+    }
+    v
+}
+fn label_starts(s: &[u8]) -> Vec<usize> {
+    let mut v = vec![0];
+    let mut i = 0;
+    while i < s.len() {
+        i += 1 + s[i] as usize;
+        v.push(i);
+    }
+    v
+}
+fn caught<T>(f: impl FnOnce() -> T + std::panic::UnwindSafe) -> Option<T> {
+    std::panic::catch_unwind(f).ok()
+}
+/// part (3): slicing operations on one valid relative name `r` (wire form) against the reference functions above
+fn slicing_rel(r: &[u8], bases: &[Vec<u8>]) -> Result<u64, String> {
+    let mut n = 0u64;
+    let name = RelativeName::from_slice(r).map_err(|_| format!("{r:02x?} refused"))?;
+    let starts = label_starts(r);
+    for idx in 0..=r.len() + 1 {
+        n += 1;
+        let is_start = starts.contains(&idx) && idx <= r.len();
+        // truncate
+        let rv = r.to_vec();
+        let t = caught(move || {
+            let mut m = RelativeName::from_octets(rv).unwrap();
+            m.truncate(idx);
+            m.into_octets()
+        });
+        match (is_start, t) {
+            (true, Some(o)) if o == r[..idx] && valid_rel(&o) => {}
+            (false, None) => {}
+            (_, t) => return Err(format!("RelativeName {r:02x?} .truncate({idx}) -> {t:02x?}; {idx} is a label start: {is_start}")),
+        }
+        // split
+        let nm = RelativeName::from_octets(r.to_vec()).unwrap();
+        let t = caught(move || {
+            let (a, b) = nm.split(idx);
+            (a.as_slice().to_vec(), b.as_slice().to_vec())
+        });
+        match (is_start, t) {
+            (true, Some((a, b))) if a == r[..idx] && b == r[idx..] && valid_rel(&a) && valid_rel(&b) => {}
+            (false, None) => {}
+            (_, t) => return Err(format!("RelativeName {r:02x?} .split({idx}) -> {t:02x?}; {idx} is a label start: {is_start}")),
+        }
+        // range / slice from idx to the end
+        let nm = RelativeName::from_octets(r.to_vec()).unwrap();
+        let t = caught(move || (nm.range(idx..).as_slice().to_vec(), nm.slice(..idx).as_slice().to_vec()));
+        match (is_start, t) {
+            (true, Some((a, b))) if a == r[idx..] && b == r[..idx] => {}
+            (false, None) => {}
+            (_, t) => return Err(format!("RelativeName {r:02x?} .range({idx}..)/.slice(..{idx}) -> {t:02x?}; {idx} is a label start: {is_start}")),
+        }
+        if name.is_label_start(idx) != is_start {
+            return Err(format!("RelativeName {r:02x?} .is_label_start({idx}) != {is_start}"));
+        }
+    }
+    // split_first / parent
+    match name.split_first() {
+        None if r.is_empty() => {}
+        Some((l, rest)) if !r.is_empty() && l.as_slice() == &r[1..1 + r[0] as usize] && rest.as_slice() == &r[1 + r[0] as usize..] => {}
+        other => return Err(format!("RelativeName {r:02x?} .split_first() -> {:?}", other.map(|(l, n)| (l.as_slice().to_vec(), n.as_slice().to_vec())))),
+    }
+    // strip_suffix with every base
+    let lr = labels(r);
+    for b in bases {
+        n += 1;
+        let lb = labels(b);
+        let is_suffix = lb.len() <= lr.len() && lr[lr.len() - lb.len()..] == lb[..];
+        let base = RelativeName::from_octets(b.clone()).unwrap();
+        let mut m = RelativeName::from_octets(r.to_vec()).unwrap();
+        let res = m.strip_suffix(&base);
+        let after = m.as_slice().to_vec();
+        let ok = if is_suffix { res.is_ok() && after == r[..r.len() - b.len()] } else { res.is_err() && after == r };
+        if !ok || !valid_rel(&after) {
+            return Err(format!("RelativeName {r:02x?} .strip_suffix({b:02x?}) -> {} leaving {after:02x?}; label-wise suffix: {is_suffix}", if res.is_ok() { "Ok" } else { "Err" }));
+        }
+        if name.ends_with(&base) != is_suffix {
+            return Err(format!("RelativeName {r:02x?} .ends_with({b:02x?}) != {is_suffix}"));
+        }
+        // chain of two relative names: within the limit the labels of both in order
+        if let Ok(c) = RelativeName::from_octets(r.to_vec()).unwrap().chain(base.clone()) {
+            use domain::base::name::ToLabelIter;
+            let got: Vec<Vec<u8>> = c.iter_labels().map(|l| l.as_slice().to_ascii_lowercase()).collect();
+            let mut want = lr.clone();
+            want.extend(lb.clone());
+            if got != want {
+                return Err(format!("chain of {r:02x?} and {b:02x?} has labels {got:02x?}"));
+            }
+        }
+    }
+    // into_absolute and back
+    let abs = RelativeName::from_octets(r.to_vec()).unwrap().into_absolute().map_err(|_| "into_absolute failed on a Vec")?;
+    let mut w = r.to_vec();
+    w.push(0);
+    if abs.as_slice() != &w[..] || !valid_abs(abs.as_slice()) {
+        return Err(format!("RelativeName {r:02x?} .into_absolute() -> {:02x?}", abs.as_slice()));
+    }
+    if abs.clone().into_relative().as_slice() != r {
+        return Err(format!("Name {w:02x?} .into_relative() -> {:02x?}", abs.into_relative().as_slice()));
+    }
+    // the same positions on the absolute name
+    let astarts = label_starts(r); // starts of the non-root labels; the root label starts at r.len()
+    for idx in 0..=w.len() + 1 {
+        n += 1;
+        let is_start = astarts.contains(&idx) && idx <= r.len();
+        if abs.is_label_start(idx) != is_start {
+            return Err(format!("Name {w:02x?} .is_label_start({idx}) != {is_start}"));
+        }
+        let a2 = abs.clone();
+        let t = caught(move || (a2.slice_from(idx).as_slice().to_vec(), a2.range_from(idx).as_slice().to_vec(), a2.clone().truncate(idx).as_slice().to_vec()));
+        match (is_start, t) {
+            (true, Some((a, b, c))) if a == w[idx..] && b == w[idx..] && c == w[..idx] && valid_abs(&a) && valid_rel(&c) => {}
+            (false, None) => {}
+            (_, t) => return Err(format!("Name {w:02x?} .slice_from/.range_from/.truncate({idx}) -> {t:02x?}; {idx} is a label start: {is_start}")),
+        }
+    }
+    // strip_suffix on the absolute name
+    for b in bases {
+        let mut wb = b.clone();
+        wb.push(0);
+        let lb = labels(b);
+        let is_suffix = lb.len() <= lr.len() && lr[lr.len() - lb.len()..] == lb[..];
+        let base = Name::from_octets(wb.clone()).unwrap();
+        match abs.clone().strip_suffix(&base) {
+            Ok(rel) if is_suffix && rel.as_slice() == &r[..r.len() - b.len()] => {}
+            Err(orig) if !is_suffix && orig.as_slice() == &w[..] => {}
+            other => return Err(format!("Name {w:02x?} .strip_suffix({wb:02x?}) -> {:?}; label-wise suffix: {is_suffix}", other.map(|n| n.as_slice().to_vec()).map_err(|n| n.as_slice().to_vec()))),
+        }
+    }
+    Ok(n)
+}
+
 fn main() {
     std::panic::set_hook(Box::new(|_| {}));
     let alphabet = [0u8, 1, 2, 63, 64, b'a'];
@@ -142,5 +289,40 @@ fn main() {
             }
         }
     }
-    println!("OK: {} inputs and operation sequences", n);
+    // (3) slicing operations: all valid relative names of at most 5 octets over {1, 2, 3, 'a', 'A', 'c'} (every label layout
+    // of that size, labels whose content looks like a length octet followed by text), and some with longer labels
+    let alphabet3 = [1u8, 2, 3, b'a', b'A', b'c'];
+    let mut names: Vec<Vec<u8>> = vec![];
+    for len in 0..=5usize {
+        for mut idx in 0..alphabet3.len().pow(len as u32) {
+            let mut s = Vec::with_capacity(len);
+            for _ in 0..len {
+                s.push(alphabet3[idx % alphabet3.len()]);
+                idx /= alphabet3.len();
+            }
+            if valid_rel(&s) {
+                names.push(s);
+            }
+        }
+    }
+    // a label whose content ends with the wire form of `com` / of `a.c`, next to the real thing
+    for extra in [&b"\x05a\x03com"[..], b"\x01a\x03com", b"\x03com", b"\x03COM", b"\x07www\x03com\x03com", b"\x05x\x01a\x01c", b"\x01x\x01a\x01c", b"\x01A\x01c"] {
+        names.push(extra.to_vec());
+    }
+    let bases: Vec<Vec<u8>> = names.iter().filter(|b| b.len() <= 4 || b.len() > 5).cloned().collect();
+    for r in &names {
+        let (r2, b2) = (r.clone(), bases.clone());
+        match std::panic::catch_unwind(move || slicing_rel(&r2, &b2)) {
+            Ok(Ok(k)) => n += k,
+            Ok(Err(msg)) => {
+                println!("FAILING INPUT: {}", msg);
+                std::process::exit(1);
+            }
+            Err(_) => {
+                println!("FAILING INPUT: slicing operations on the relative name {:02x?}: unexpected PANIC", r);
+                std::process::exit(1);
+            }
+        }
+    }
+    println!("OK: {} inputs, operation sequences and slicing operations ({} names)", n, names.len());
 }
